@@ -76,7 +76,7 @@ func loadEngine(repoDir, harnessDir string, overlay map[string][]byte, extraPatt
 	cfg := &packages.Config{
 		Mode:    packages.LoadAllSyntax,
 		Dir:     harnessDir,
-		Env:     append(os.Environ(), "GOFLAGS=-mod=mod", "GOPROXY=off", "GOSUMDB=off", "GOTOOLCHAIN=local"),
+		Env:     append(os.Environ(), "GOFLAGS="+goFlagsFor(repoDir, harnessDir), "GOPROXY=off", "GOSUMDB=off", "GOTOOLCHAIN=local"),
 		Overlay: overlay,
 	}
 	patterns := append([]string{"./...", repoModule, repoModule + "/parser"}, extraPatterns...)
@@ -140,6 +140,25 @@ func loadEngine(repoDir, harnessDir string, overlay map[string][]byte, extraPatt
 	}
 	registerIntrinsics(e)
 	return e, nil
+}
+
+// goFlagsFor returns GOFLAGS for the harness module. The module's go.mod replaces the
+// repository by /repo; for another checkout (a scratch copy) an alternative mod file
+// with that path is written next to it and selected with -modfile.
+func goFlagsFor(repoDir, harnessDir string) string {
+	if repoDir == "/repo" {
+		return "-mod=mod"
+	}
+	b, err := os.ReadFile(filepath.Join(harnessDir, "go.mod"))
+	if err != nil {
+		return "-mod=mod"
+	}
+	alt := filepath.Join(harnessDir, "go.alt.mod")
+	os.WriteFile(alt, []byte(strings.Replace(string(b), "=> /repo", "=> "+repoDir, 1)), 0o644)
+	if sum, err := os.ReadFile(filepath.Join(repoDir, "go.sum")); err == nil {
+		os.WriteFile(filepath.Join(harnessDir, "go.alt.sum"), sum, 0o644)
+	}
+	return "-mod=mod -modfile=" + alt
 }
 
 func (e *Engine) initAllowed(p *ssa.Package) bool {
